@@ -1,10 +1,11 @@
 from harness.props import base
 from harness import preds
 LEVEL = 'proof'
-VFILES = ['Lines.v', 'Tree.v', 'RegexFacts.v', 'Properties/C01.v']
-EXPLANATION = ('Theorems: line list concatenates to the input; get_code = in-order leaf texts; every subtree is a contiguous slice. '
-               'The tokenizer-tiling and token-conservation lemmas are covered by the correspondence (model = implementation on tok/parse streams) '
-               'plus the search predicate tiles/get_code/slices on implementation trees.')
+VFILES = ['Lines.v', 'Tree.v', 'RegexFacts.v', 'TokTiles.v', 'Properties/C01.v', 'Properties/C09.v']
+EXPLANATION = ('Theorems for all inputs: the line list concatenates to the input; the token stream tiles the lines (tok_tiles, guarded tokenizer model, see C09); '
+               'get_code of any tree = in-order leaf texts; every subtree is a contiguous slice. Not yet proved: the engine keeps every token as a leaf '
+               '(parse_keeps_tokens, C01_partial) - covered by the parse correspondence (model = implementation) plus the tiles/get_code/slice predicates on '
+               'implementation trees.')
 
 
 def pred(v, code, m):
